@@ -259,6 +259,18 @@ func runC15(c *core.Ctx) error {
 					sv.Name = "Other" + sv.Name
 				}
 			}
+			// the next version of the same API in its own package (api.v1 / api.v2): same service, method and header
+			// names. OpenAPI documents are named after the service alone, so that plugin keeps the renamed neighbour.
+			var twin *schema.Schema
+			if rapid.Bool().Draw(t, "twin_package") {
+				if b, err := json.Marshal(s); err == nil {
+					tw := &schema.Schema{}
+					if json.Unmarshal([]byte(strings.ReplaceAll(string(b), s.ID, "c0002")), tw) == nil {
+						twin = tw
+						c.Ev.Class("neighbour:same_names_other_package", 1)
+					}
+				}
+			}
 			n++
 			heads, enums := 0, len(s.AllEnums())
 			for _, f := range s.Files {
@@ -294,7 +306,11 @@ func runC15(c *core.Ctx) error {
 				go func(j out) {
 					sem <- struct{}{}
 					defer func() { <-sem }()
-					j.msg, j.err = c15Variation(c, j.plug, j.variation, s, other, j.p1, j.p2)
+					o := other
+					if twin != nil && j.plug != plugin.OpenAPI {
+						o = twin
+					}
+					j.msg, j.err = c15Variation(c, j.plug, j.variation, s, o, j.p1, j.p2)
 					results <- j
 				}(j)
 			}
@@ -327,7 +343,11 @@ func runC15(c *core.Ctx) error {
 				c.Ev.Sample(map[string]any{"schema": s, "variations": c15Variations, "plugins": plugin.All}, 2)
 			}
 			if fail != nil {
-				last = &c15Case{Property: "C15", Plugin: fail.plug, Variation: fail.variation, Schema: s, Other: other, Param: fail.p1, ParamAlt: fail.p2, Observed: fail.msg}
+				failOther := other
+				if twin != nil && fail.plug != plugin.OpenAPI {
+					failOther = twin
+				}
+				last = &c15Case{Property: "C15", Plugin: fail.plug, Variation: fail.variation, Schema: s, Other: failOther, Param: fail.p1, ParamAlt: fail.p2, Observed: fail.msg}
 				t.Fatalf("%s %s: %s", fail.plug, fail.variation, fail.msg)
 			}
 		})
